@@ -169,10 +169,10 @@ func (r *SparseReal64Matrix) MdivM(a, b ConstMatrix) Matrix {
     for j := 0; j < m; j++ {
       c1 := a.ConstAt(i, j)
       c2 := b.ConstAt(i, j)
-      if c1.GetFloat64() != float64(0) || c2.GetFloat64() == float64(0) {
+      if !isNullScalar(c1) || c2.GetFloat64() == float64(0) {
         r.At(i, j).Div(c1, c2)
       } else {
-        if r.ConstAt(i, j).GetFloat64() != 0.0 {
+        if !isNullScalar(r.ConstAt(i, j)) {
           r.At(i, j).Reset()
         }
       }
